@@ -47,7 +47,7 @@ pub open spec fn at_line_start(s: Seq<char>) -> bool decreases s.len() {
 //@ |        None => forall|j: int| 0 <= j < haystack@.len() ==> haystack@[j] != needle,
 //@ |    },
 
-//# ob name=find_start_marker_leftmost verus_fn=find_start_marker_memchr fn=compiler::lexer::find_start_marker_memchr kind=complete stmt="default delimiters, text of any length: the function returns the LEFTMOST position where a tag starts (`{{`, `{%` or `{#`) - so everything before it is plain text and no tag start is skipped - together with the tag kind that the second byte names, the whitespace marker that the third byte names and the marker length 2 or 3; it returns None exactly when no tag starts anywhere; no index overflows or goes out of bounds"
+//# ob name=find_start_marker_leftmost_unbounded verus_fn=find_start_marker_memchr fn=compiler::lexer::find_start_marker_memchr kind=complete stmt="default delimiters, text of any length: the function returns the LEFTMOST position where a tag starts (`{{`, `{%` or `{#`) - so everything before it is plain text and no tag start is skipped - together with the tag kind that the second byte names, the whitespace marker that the third byte names and the marker length 2 or 3; it returns None exactly when no tag starts anywhere; no index overflows or goes out of bounds"
 //@ extract file=minijinja/src/compiler/lexer.rs item=fn:find_start_marker_memchr ret=r
 //@ |    requires a.spec_bytes().len() <= isize::MAX,
 //@ |    ensures match r {
